@@ -435,10 +435,6 @@ func parseRead(f []string) (rop, bool) {
 
 // ---------------------------------------------------------------- one script on the real implementation
 
-type pend struct {
-	w wval
-}
-
 type state struct {
 	buf    *bytex.BufferX
 	rd     *bytex.ReaderX
@@ -513,7 +509,12 @@ func (st *state) exec(line string) string {
 			return "bad-op"
 		}
 		tmp := bytex.NewBufferX()
-		if err := w.apply(tmp); err != nil {
+		_, err, pan := call(func() (string, error) { return "", w.apply(tmp) })
+		if pan != nil {
+			st.hit("write:panic", fmt.Sprintf("%s panicked: %v", strings.Join(f[2:], " "), pan))
+			return "panic"
+		}
+		if err != nil {
 			st.buf = bytex.NewReadableBufferX(nil)
 			st.checkLimitRefusal(w, err)
 			return "err:" + errName(err) + " len=0 full=0"
@@ -723,10 +724,14 @@ func (st *state) execStream(f []string) string {
 					return fmt.Sprintf("v=%s left=%d", v, n)
 				}
 				what := fmt.Sprintf("%s: ReaderX over chunks gives %s, BufferX over the same bytes gives %s", r.name, show(v, err, nleft), show(sv, serr, st.shadow.Len()))
-				if err == bytex.ErrReadWrongNum && serr == nil && sv == "-" {
-					st.hit("ReaderX.ZReadN:empty-string-rejected", what)
-				} else {
-					st.hit("ReaderX.Read:fragmented-source-differs-from-buffer", what)
+				switch {
+				case err == bytex.ErrReadWrongNum && serr == nil && sv == "-":
+					st.hit("ReaderX-vs-BufferX:empty-string-rejected-by-stream", what)
+				case err != nil && (serr == nil || nleft != st.shadow.Len()) && (err == bytex.ErrByteBufferEmpty || err == io.EOF || err == io.ErrUnexpectedEOF):
+					// a value was there (or bytes are still pending) but the stream reader gave up
+					st.hit("ReaderX-vs-BufferX:stream-gives-up-where-buffer-decodes", what)
+				default:
+					st.hit("ReaderX-vs-BufferX:decode-differently", what)
 				}
 			}
 		}
